@@ -49,7 +49,7 @@ func init() {
 
 func init() {
 	props["C15"] = PropDef{Level: "exploration", QuickS: 45, ThoroughS: 600,
-		Units:    []Unit{{Name: "capfile-hostile", Pkg: "./props/capfile", Sim: "c15", Share: 1}},
+		Units:    []Unit{{Name: "capfile-hostile", Pkg: "./props/capfile", Sim: "c15", Share: 1, MemMB: 3072}},
 		Rule:     "one evaluation = one seeded input (a structurally valid pcap / pcapng / snoop file built field by field by the harness, little or big endian, with every header, block, option and record field a named mutation target; then 0-2 field corruptions from a boundary value set, or a random tail, or a truncation; optionally gzip-wrapped, bit-flipped or cut) read through the fault-free stream, two differently chunked streams and a stream that fails at a seeded offset (every offset for inputs up to 512 bytes in the thorough tier), with the copying or zero-copy call; oracles: no panic, no spin at EOF, allocation per call within 1 MiB + 4 x (bytes present + declared snap length), len(data)==CaptureLength<=Length, results independent of chunking, results before an injected error are a prefix of the fault-free results and the error surfaces; non-trivial = at least one corruption or stream fault fired; distinct = distinct event-log fingerprints among non-trivial runs",
 		RealStub: "real: pcapgo.Reader, NgReader, SnoopReader, bufio, compress/gzip; stub: the byte stream (sim/disk.Stream)",
 		Assume:   []string{"a corrupted declared snap length is capped at 1 MiB by the harness, because a declared snap length licenses an allocation of that size", "allocation is measured with runtime/metrics /gc/heap/allocs:bytes around each call in a single-goroutine child", "after a non-EOF error the harness keeps calling (up to 3 consecutive errors, 64 calls)"}}
@@ -112,7 +112,7 @@ var probeNames = map[string][]string{
 	"c14pcap": {"exhaustive_cut_sweep", "libpcap_read_pcap"},
 	"c14ng":   {"exhaustive_cut_sweep", "libpcap_read_pcapng", "interface_with_timestamp_offset", "interface_added_between_packets", "secrets_block_between_packets", "statistics_block_between_packets"},
 	"c15":     {"short_reads_delivered"},
-	"c16":     {"retry_after_transient_error", "cancel_during_read", "zero_copy_nocopy_refused", "three_or_more_packets", "channel_full_backpressure"},
+	"c16":     {"retry_after_transient_error", "cancel_during_read", "zero_copy_nocopy_refused", "three_or_more_packets", "channel_full_backpressure", "cancelled_and_abandoned", "cancelled_while_blocked_on_full_channel"},
 	"c20":     {"read_to_eof", "closed_early", "closed_between_batches", "closed_inside_a_batch"},
 	"c20asm":  {"read_to_eof", "closed_early", "real_assembler_run"},
 }
